@@ -77,15 +77,20 @@ Definition spec_decode (bs : list N) : option bloom_abs :=
 (* ---------- the images a conforming (Java / C++) writer can emit for an abstract state ----------
    short form: only for the empty set (Java and C++ write empty filters in the short form);
    long form with the exact count; long form with the "dirty" marker -1 in the count field (a
-   writer whose cached count is stale).  The two unused fields are written as 0 by the known
-   writers; a reader must ignore them, so they are parameters here. *)
+   writer whose cached count is stale).  The two unused fields and the seven undefined flag bits are
+   written as 0 by the known writers; a reader must ignore them, so they are parameters here. *)
 Inductive form := FShort | FLongExact | FLongDirty.
-Record variant := mkVar { v_form : form; v_pad16 : N; v_pad32 : N }.
+(* v_flags: the flags byte a writer emits apart from bit 2.  Only bit 2 (EMPTY) is defined by the format; the known
+   writers leave the other seven bits 0, a reader must not look at them: they are arbitrary here. *)
+Record variant := mkVar { v_form : form; v_pad16 : N; v_pad32 : N; v_flags : N }.
 
 Definition is_short (v : variant) : bool := match v_form v with FShort => true | _ => false end.
 
+(* the flags byte: bit 2 set exactly in the short form, every other bit as the writer pleases *)
+Definition flags_byte (v : variant) : N := N.lor (N.ldiff (v_flags v) 4) (if is_short v then 4 else 0).
+
 Definition enc_spec (v : variant) (a : bloom_abs) : list N :=
-  [ (if is_short v then 3 else 4); 1; 21; (if is_short v then 4 else 0) ]
+  [ (if is_short v then 3 else 4); 1; 21; flags_byte v ]
   ++ le_bytes 2 (a_nh a) ++ le_bytes 2 (v_pad16 v)
   ++ le_bytes 8 (a_seed a)
   ++ le_bytes 4 (a_nw a) ++ le_bytes 4 (v_pad32 v)
